@@ -295,6 +295,8 @@ def exec_case(pack, case, seed):
 
     for step in ((set_name, set_show) if case["order"] == "name-first" else (set_show, set_name)):
         step()
+    feats["name"] = "none" if name_eff is None else "set"  # the configuration in effect, not the one asked for
+    feats["pa"] = "on" if show_eff else "off"
     # accessors reflect the configuration
     try:
         g = drv.name
@@ -318,7 +320,13 @@ def exec_case(pack, case, seed):
         opt.append(((ble.AD_SHORT_NAME, ble.AD_COMPLETE_NAME), name_eff))
     optlen = sum(2 + len(d) for _, d in opt)
     free = CAPACITY - optlen
-    args, data, pairs = data_value(case["data"], seed)
+    try:
+        args, data, pairs = data_value(case["data"], seed)
+    except (HarnessError, Abort):
+        raise
+    except Exception as e:  # noqa  (service data classes / chunk() of the library raised)
+        fails.append(("exception:%s:data-helper" % type(e).__name__, "building %r raised %r" % (case["data"], e)))
+        return fails, feats, "helper-raises"
     for lib, mine in pairs:
         if lib != mine:
             fails.append(("chunk-helper", "chunk() built %s, an AD structure of that type and data is %s" % (lib.hex(), mine.hex())))
